@@ -1,9 +1,45 @@
-(* C04 - position ... moves ... reconstructs the game position (model-level part).
-   Agreement of the replayed position with the rules and with the generator's successors is decided
-   by the correspondence checks (position command versus Spec.apply; every generated move printed and
-   replayed).  The theorems below are the text-level facts make_move relies on, for every UCI text. *)
-From Walleye Require Import Model.TextMove Proofs.TextMoveProofs.
+(* C04 - position ... moves ... reconstructs the game position.
+   Proved for every table and every well-formed position (pos_ok1, see C01): for every move the generator
+   produces - hence, by C01, for every legal move - replaying the text the engine prints for it with make_move
+   succeeds and builds the generator's position: same board, side to move, en-passant target, king squares and
+   castling rights (same_pos), hence the position the rules give (C02), with the invariant kept, so that the
+   statement chains along any list of legal move texts.  The remaining theorems are the text-level facts
+   make_move relies on, for every UCI text.  Tied to the code by the correspondence checks (position command
+   versus Spec.apply on every prefix; every generated move printed and replayed). *)
+From Walleye Require Import Model.TextMove Spec.Abs Proofs.TextMoveProofs Proofs.GenerateAbs Proofs.LegalMoves Proofs.MakeMove Proofs.MakeMoveSame.
 Open Scope N_scope.
+
+Theorem C04_replay_builds_the_generated_position : forall zt s x,
+  pos_ok1 s -> In x (generate_moves zt s AllMoves) ->
+  exists txt y, best_move_text x = Ok txt /\ make_move zt s txt = Ok y /\ same_pos y x.
+Proof. exact replay_builds_generated_position. Qed.
+
+(* ... which is the position the rules give for the move, and again a well-formed position *)
+Theorem C04_replay_is_the_rules_position : forall zt s mv,
+  pos_ok1 s -> In mv (legal_moves (abs s)) ->
+  exists txt y, make_move zt s txt = Ok y /\ abs y = apply (abs s) mv /\ pos_ok1 y.
+Proof.
+  intros zt s mv PO Hl. destruct (legal_moves_are_generated zt s mv PO Hl) as (x & Hx & Hd).
+  destruct (replay_builds_generated_position zt s x PO Hx) as (txt & y & _ & Hy & SP).
+  exists txt, y. split; [exact Hy|].
+  destruct (generate_moves_abs zt s AllMoves x (proj1 PO) Hx) as (mv' & Hd' & HA). assert (mv' = mv) by congruence. subst mv'.
+  split; [rewrite (same_pos_abs y x SP); exact HA|].
+  apply (same_pos_pos_ok1 x y SP). exact (Preservation.generator_preserves_pos_ok1 zt s x PO Hx).
+Qed.
+
+(* the position command: any list of moves, each legal where it is played, given by their UCI texts, is replayed
+   move by move into the position the rules give, and the result is again well-formed (and keeps key = hash) *)
+Theorem C04_position_moves_chain : forall zt mvs s t,
+  pos_ok1 s -> legal_chain (abs s) mvs ->
+  exists s' t', play_moves zt s t (map text_of_move mvs) = Ok (s', t') /\
+                abs s' = fold_left apply mvs (abs s) /\ pos_ok1 s' /\ (HashProofs.key_ok zt s -> HashProofs.key_ok zt s').
+Proof. intros zt mvs. exact (position_moves_chain zt mvs). Qed.
+
+(* every UCI text of a board move means to make_move what its squares and promotion letter say: 64 x 64 x 5 texts *)
+Theorem C04_text_is_read_correctly : forall zt s a b pr,
+  In a inner_points -> In b inner_points -> In pr promos ->
+  make_move zt s (move_text a b pr) = make_move_pts zt s a b pr.
+Proof. exact make_move_text. Qed.
 
 (* the substring test on corner squares means "from or to is that corner": 8^4 x 5 texts x 4 corners *)
 Theorem C04_contains_corner : forall mv corner,
@@ -24,6 +60,10 @@ Theorem C04_point_text_roundtrip :
   forallb (fun p => match point_from_str (show_point p) with Some q => point_eqb p q | None => false end) inner_points = true.
 Proof. exact point_text_roundtrip. Qed.
 
+Print Assumptions C04_replay_builds_the_generated_position.
+Print Assumptions C04_replay_is_the_rules_position.
+Print Assumptions C04_position_moves_chain.
+Print Assumptions C04_text_is_read_correctly.
 Print Assumptions C04_contains_corner.
 Print Assumptions C04_castle_strings_match.
 Print Assumptions C04_point_text_roundtrip.
